@@ -3,8 +3,9 @@ import GdslModel.Gen.Traits
 # C16 — thread-sharing is exactly as safe as the payload types
 The definition tables `Gen.sync_digraph` … are regenerated from the Rust sources on every run, so
 these theorems are re-checked against what the code says now. The verdict for a type depends on a
-payload only through its two capability bits, so deciding all 4³ assignments is a proof for every
-instantiation of `K`, `N`, `E`.
+payload only through its capability bits (Send, Sync, and whether it meets any *additional* bound an
+explicit impl asks, such as `'static`), so deciding all 8³ assignments is a proof for every
+instantiation of `K`, `N`, `E`; in particular the verdict may not depend on the additional bit.
 -/
 namespace G.Traits
 
@@ -59,6 +60,18 @@ def weakBounds : List Def :=
    ⟨.weak (.tuple [.param 0, .param 1, .rwlock (.named 1)]), none, none⟩,
    ⟨.tuple [.named 0, .named 0, .param 2], none, none⟩, ⟨.hashmap (.param 0) (.named 0), none, none⟩]
 theorem weak_bounds_not_exact : exactFor weakBounds iNode = false ∧
-    verdict weakBounds iNode .send ⟨true, true⟩ ⟨true, false⟩ ⟨true, true⟩ = true := by decide
+    verdict weakBounds iNode .send ⟨true, true, true⟩ ⟨true, false, true⟩ ⟨true, true, true⟩ = true := by decide
+
+/-- negative control: an explicit impl that additionally asks `'static` (or any bound the struct itself does not have)
+    is not exact: a borrowed payload that is `Send + Sync` no longer makes the node shareable -/
+def staticBounds : List Def :=
+  [⟨.arc (.tuple [.param 0, .param 1, .rwlock (.named 1)]),
+    some [(0, .send), (0, .sync), (0, .extra), (1, .send), (1, .sync), (2, .send), (2, .sync)],
+    some [(0, .send), (0, .sync), (1, .send), (1, .sync), (2, .send), (2, .sync)]⟩,
+   ⟨.tuple [.vec (.tuple [.named 2, .param 2]), .vec (.tuple [.named 2, .param 2])], none, none⟩,
+   ⟨.weak (.tuple [.param 0, .param 1, .rwlock (.named 1)]), none, none⟩,
+   ⟨.tuple [.named 0, .named 0, .param 2], none, none⟩, ⟨.hashmap (.param 0) (.named 0), none, none⟩]
+theorem static_bounds_not_exact : exactFor staticBounds iNode = false ∧
+    verdict staticBounds iNode .send ⟨true, true, false⟩ ⟨true, true, true⟩ ⟨true, true, true⟩ = false := by decide
 
 end G.Traits
